@@ -126,7 +126,7 @@ class Explorer:
         # the other tests of the same quantity and dies when one of the arguments changes
         from ..flow import Expander
         self._exp = Expander(ctx, f, only=lambda v: isinstance(v, ast.Call) and isinstance(v.func, ast.Name)
-                             and ctx.repo.resolve_callee(f, v) in ctx.repo.funcs)
+                             and ctx.repo.resolve_callee(f, v) in ctx.repo.funcs, inline_calls=False)
         self._canon: Dict[int, ast.AST] = {}
         for n in self.cfg.nodes:
             if n.kind == "test":
